@@ -211,6 +211,37 @@ def build(tier="quick", seed=0):
 
         pack.add(Obligation(name, lambda tier, name=name, th=th, judge=judge: prove_paths(name, th, judge, lambda m, p: {}), replay=lambda w, typename=typename, first=first, second=second: {"call": "c05_history_pair", "args": {"ftype": typename, "first": first, "second": second}}, functions=FU, mode="representative pairs of equal-but-different candidates"))
 
+    # ---- A2d. a digest given as bytes is hex text like any other: the field exposes text (what the JSON adapter can write and read back)
+    def th_digest_bytes():
+        D = it.call(RD, ["c05/rec", [("digest", "x"), ("varint", "n")]], {})
+        rec = it.call(D, [], {"n": 1})
+        it.setattr_(rec, "x", (b"d41d8cd98f00b204e9800998ecf8427e", b"da39a3ee5e6b4b0d3255bfef95601890afd80709", None))
+        d = rec.attrs["x"]
+        return [it.type_name(it.getattr_(d, a)) for a in ("md5", "sha1")], [it.unbase(it.getattr_(d, a)) for a in ("md5", "sha1")], packable(rec)
+
+    pack.add(Obligation("C05.digest[hashes given as bytes]", lambda tier: prove_paths("C05.digest[hashes given as bytes]", th_digest_bytes, lambda p: (p.value == (["str", "str"], ["d41d8cd98f00b204e9800998ecf8427e", "da39a3ee5e6b4b0d3255bfef95601890afd80709"], None), f"a digest given as bytes exposes md5 / sha1 as {p.value[0]} {p.value[1]} (packable: {p.value[2] or 'yes'})"), lambda m, p: {}, allow_raise=("TypeError",)),
+                        replay=lambda w: {"call": "c05_digest_bytes", "args": {}}, functions=FU, mode="representative value"))
+
+    # ---- A2e. augmented assignment to a typed list field is an assignment: the elements it adds are converted or the assignment is rejected
+    for typename, extra in (("uint16[]", "[70000]"), ("uint16[]", "[80, 'x']"), ("string[]", "[b'by\\xfftes']")):
+        name = f"C05.iadd[{typename} += {extra}]"
+
+        def th(typename=typename, extra=extra):
+            D = it.call(RD, ["c05/rec", [(typename, "x"), ("varint", "n")]], {})
+            rec = it.call(D, [], {"x": [1] if typename.startswith("uint") else ["a"], "n": 1})
+            before = snapshot(rec)
+            cur = rec.attrs["x"]
+            try:
+                f = cur.cls.find("__iadd__")
+                new_v = it.call(PBound(f, cur), [pyvalue(extra)], {}) if isinstance(f, PFunc) else (cur.base.extend(pyvalue(extra)) or cur)  # x += y: list.__iadd__ extends in place and hands the same object back
+                it.setattr_(rec, "x", new_v)
+            except PyRaise as e:
+                return "rejected", None, None
+            return "accepted", well_typed(rec, "x", typename), packable(rec)
+
+        pack.add(Obligation(name, lambda tier, name=name, th=th, typename=typename, extra=extra: prove_paths(name, th, lambda p: (p.value[0] == "rejected" or not (p.value[1] or p.value[2]), f"after x += {extra} the {typename} field is not well typed / packable: {p.value[1] or p.value[2]}"), lambda m, p: {}),
+                            replay=lambda w, typename=typename, extra=extra: {"call": "c05_iadd", "args": {"ftype": typename, "extra": extra}}, functions=FU, mode="representative additions"))
+
     # ---- A3. a number that is not an integer offered to an integer-valued field: converted to an integer or rejected - never kept as it is
     for typename, src, must_reject in (("uint16", "1.5", False), ("uint32", "2.5", False), ("net.tcp.Port", "80.5", False), ("uint16", "80.0", False), ("boolean", "0.5", True), ("boolean", "1.0", False), ("uint16[]", "1.5", False), ("uint16", "65535.5", True)):
         name = f"C05.nonintegral[{typename} <- {src}]"
